@@ -76,7 +76,7 @@ def handle (op : String) (j : Json) : Option (Except String Json) :=
     let fuel := (j.getObjValAs? Nat "fuel").toOption.getD 100000
     -- the decidable hypotheses of `VL.C07.evaluate_ok_sound`, evaluated on this very input
     let hyp : List (String × Json) :=
-      [("votes_ok", toJson (votesOk votes)),
+      [("votes_ok", toJson (votesOk votes)), ("has_votes", toJson (hasVotes votes)),
        ("init_ok", match initState div q votes total with
           | .ok s0 => toJson (stateOk q votes s0)
           | .error _ => Json.null)]
